@@ -10,9 +10,34 @@ mod selftest;
 #[global_allocator]
 static GLOBAL: alloc::CheckAlloc = alloc::CheckAlloc;
 
-pub fn histex_replay(_v: &serde_json::Value) -> i32 {
-    eprintln!("histex replay not available");
-    2
+/// Replay of an engine-B case: the property's enumeration is run again (it takes seconds) and the
+/// verdict for exactly that case is reported.
+pub fn histex_replay(v: &serde_json::Value) -> i32 {
+    let prop = v["property"].as_str().unwrap_or("").to_string();
+    let case = v["case"].clone();
+    for tier in [props::Tier::Quick, props::Tier::Thorough] {
+        let r = match propsb::run(&prop, tier) {
+            Some(r) => r,
+            None => {
+                eprintln!("unknown engine-B property {}", prop);
+                return 2;
+            }
+        };
+        // the replay case may name a subset of the keys of the recorded case
+        let matches = |full: &serde_json::Value| -> bool {
+            match (case.as_object(), full.as_object()) {
+                (Some(want), Some(have)) => want.iter().all(|(k, v)| have.get(k) == Some(v)),
+                _ => *full == case,
+            }
+        };
+        if let Some(hit) = r.violations.iter().find(|x| matches(&x.case)) {
+            println!("VIOLATION property={} replay=(case) {}", prop, case);
+            println!("  {}", hit.message);
+            return 1;
+        }
+    }
+    println!("replay of case {} : no violation", case);
+    0
 }
 
 fn main() {
